@@ -17,7 +17,7 @@ OUTSIDE = ('callable sizes/alignments other than the 54 listed configurations; m
 
 SIZES = [1, 8, 48, 56, 57, 64, 128, 256, 300]
 ALIGNS = [1, 8, 16, 64, 128, 256]
-QUICK = {(8, 1), (56, 8), (57, 8), (256, 16), (300, 16), (64, 64), (128, 128), (256, 256)}
+QUICK = {(8, 1), (56, 8), (57, 8), (256, 16), (300, 16), (64, 64), (128, 128), (256, 256), (300, 128), (300, 256)}
 RT = {'VF_ADDR_AWARE': 1, 'VF_AA_DYNAMIC': 1}
 
 
